@@ -4,7 +4,7 @@
    Columns: [validity 0/1 ...] [raw values ...]; outputs print the value of a null slot as 0.
    Errors: [-1;1] cast error, [-1;8] panic; [-3] = pair / input outside the model (never generated). *)
 From Coq Require Import List ZArith NArith String Bool.
-From AV Require Import Base.Codec Model.C13_Num Model.C13_Decimal Model.C13_Cast Model.C13_Text.
+From AV Require Import Base.Codec Model.C13_Num Model.C13_Decimal Model.C13_Cast Model.C13_Text Model.C13_Interval.
 Import ListNotations.
 Local Open Scope string_scope.
 Local Open Scope Z_scope.
@@ -111,7 +111,45 @@ Definition d_parse_decimal (a : args) : list (list Z) :=
 Definition p_one (out : args) : list (list Z) :=
   match out with [[1]] => [[1]] | _ => [[0]] end.
 
+(* c13.ivcast: [kind; unit] [safe] [validity] [g1] [g2] [g3] — interval casts (C13_Interval.v).
+   kind 0: g1 g2 g3 = months days nanos, output [validity] [values];
+   kind 1: g1 = duration values; kinds 2 / 4: g1 = i32 values; kind 3: g1 g2 = days millis;
+   kinds 1, 2, 3 output [validity] [months] [days] [nanos] (null slots printed as 0 0 0). *)
+Fixpoint zip3 (f : Z -> Z -> Z -> Z) (a b c : list Z) : list Z :=
+  match a, b, c with
+  | x :: a', y :: b', z :: c' => f x y z :: zip3 f a' b' c'
+  | _, _, _ => []
+  end.
+Fixpoint zip2 (f : Z -> Z -> Z) (a b : list Z) : list Z :=
+  match a, b with x :: a', y :: b' => f x y :: zip2 f a' b' | _, _ => [] end.
+Definition iv_column (kind : Z) (a : args) : column :=
+  let vals := if kind =? 0 then zip3 pack_mdn (arg 3 a) (arg 4 a) (arg 5 a)
+              else if kind =? 3 then zip2 pack_dt (arg 3 a) (arg 4 a)
+              else arg 3 a in
+  col_of (arg 2 a) vals.
+Definition out_iv (kind : Z) (xs : list (option Z)) : list (list Z) :=
+  if (kind =? 0) || (kind =? 4) then out_logical xs
+  else [map (fun x => match x with Some _ => 1 | None => 0 end) xs;
+        map (fun x => match x with Some v => mdn_months v | None => 0 end) xs;
+        map (fun x => match x with Some v => mdn_days v | None => 0 end) xs;
+        map (fun x => match x with Some v => mdn_nanos v | None => 0 end) xs].
+Definition d_ivcast (a : args) : list (list Z) :=
+  let kind := nth 0 (arg 0 a) 0 in let u := nth 1 (arg 0 a) 0 in
+  match interval_kernel kind u with
+  | KNone => unmodelled
+  | k => match run_kernel k (argb 1 a) (iv_column kind a) with
+         | ROk c => out_iv kind (logical c) | RErr => err_out 1 | RPanic => err_out 8 end
+  end.
+Definition s_ivcast (a : args) : list (list Z) :=
+  let kind := nth 0 (arg 0 a) 0 in let u := nth 1 (arg 0 a) 0 in
+  match interval_conv kind u with
+  | None => unmodelled
+  | Some conv => match spec_cast conv (argb 1 a) (logical (iv_column kind a)) with
+                 | Some xs => out_iv kind xs | None => err_out 1 end
+  end.
+
 Definition ops_C13 : list (string * opfun) :=
   [ ("c13.cast", d_cast); ("c13.cast_m", d_cast); ("c13.cast.spec", s_cast); ("c13.inverse.spec", s_inverse);
     ("c13.fmt", d_fmt); ("c13.parse", d_parse); ("c13.parse.spec", s_parse); ("c13.parse_decimal", d_parse_decimal);
-    ("c13.text_rt.spec", s_identity 2 3); ("c13.one.post1", p_one) ].
+    ("c13.text_rt.spec", s_identity 2 3); ("c13.one.post1", p_one);
+    ("c13.ivcast", d_ivcast); ("c13.ivcast.spec", s_ivcast) ].
